@@ -241,7 +241,9 @@ def gen_native(rng, depth):
     return [k, subs]
 
 
-def gen_utxo(rng, svc, script_kind):
+def gen_utxo(rng, svc, script_kind, like=None):
+    """like = an earlier UTxO: the new one carries the SAME script bytes under another Plutus language and / or the same
+    datum hash (same preimage) — what a cache keyed on the bytes or the hash alone cannot tell apart"""
     assets = gen_assets(rng)
     flat = [[p, n, q] for p, names in assets for n, q in names]
     if rng.random() < 0.6:
@@ -258,11 +260,19 @@ def gen_utxo(rng, svc, script_kind):
         pd = gen_pdata(rng, 3 if rng.random() < 0.3 else 2)
         raw = pdata_cbor(pd)
         datum = ['inline', hashlib.blake2b(raw, digest_size=32).hexdigest(), raw.hex(), pd]
+    if like is not None and like['datum'][0] == 'hash' and rng.random() < 0.5:
+        datum = list(like['datum'])
     script, sh, wrapped, digests = None, '', False, ['', '']
+    same_body = None
+    if like is not None and like.get('script') and like['script'][0] == 'plutus' and script_kind != 'native':
+        script_kind, same_body = 'plutus', like['script']
     if script_kind in ('plutus', 'plutus_v3'):
         vers = [1, 2] if svc in ('ogmios_v5', 'cli') else [1, 2, 3]
         ver = 3 if script_kind == 'plutus_v3' else rng.choice(vers)
         body = rbytes(rng, rng.choice([1, 14, 23, 24, 24, 60, 60, 255, 256]) if rng.random() < 0.3 else rng.randint(1, 40))
+        if same_body is not None:
+            body = bytes.fromhex(same_body[2])
+            ver = rng.choice([v for v in vers if v != same_body[1]] or vers)
         script = ['plutus', ver, body.hex()]
         wrapped = rng.random() < 0.4
         wrappedb = cbor_head(2, len(body)) + body
@@ -291,7 +301,8 @@ def gen_case(rng, svc, region=False):
         kind = None if r < 0.55 else 'plutus'
         if svc == 'blockfrost' and r > 0.85:
             kind = 'native'
-        us.append(gen_utxo(rng, svc, kind))
+        like = us[0] if k >= 1 and rng.random() < 0.3 else None
+        us.append(gen_utxo(rng, svc, kind, like))
     if region:                                     # one UTxO of the response carries an unsupported reference script
         kind = 'plutus_v3' if svc == 'cli' and rng.random() < 0.5 else 'native'
         us[rng.randrange(len(us))] = gen_utxo(rng, svc, kind)
@@ -365,8 +376,28 @@ def gen_seq(rng, svc):
     interval = rng.choice(INTERVALS[svc])
     maxsize = None if svc == 'blockfrost' or rng.random() < 0.6 else rng.choice([1, 1, 2, 3])
 
+    seen = []
+
     def fresh():
-        return gen_utxo(rng, svc, None if rng.random() < 0.7 else 'plutus')
+        like = rng.choice(seen) if seen and rng.random() < 0.3 else None
+        u = gen_utxo(rng, svc, None if rng.random() < 0.6 else 'plutus', like)
+        u = known(u)
+        if u['script'] or u['datum'][0] == 'hash':
+            seen.append(u)
+        return u
+
+    revealed = {}                 # datum hash -> preimage the service has learnt (one answer per hash, for every UTxO)
+
+    def known(u):
+        if u['datum'][0] == 'hash' and u['datum'][2] is None and u['datum'][1] in revealed:
+            u = dict(u, datum=['hash', u['datum'][1], revealed[u['datum'][1]]])
+        return u
+
+    def reveal():
+        """the preimage of a datum hash becomes known to the service in a later block (Kupo serves it from then on)"""
+        hidden = sorted({u['datum'][1] for a in addrs for u in state[a] if u['datum'][0] == 'hash' and u['datum'][2] is None})
+        if hidden and rng.random() < 0.5:
+            revealed[rng.choice(hidden)] = pdata_cbor(gen_pdata(rng, 1)).hex()
 
     state = {a: [fresh() for _ in range(rng.choice([0, 1, 1, 2, 2, 3]))] for a in addrs}
     slot = rng.choice([1, 2, 1000, 70000000, 2**32])
@@ -375,7 +406,7 @@ def gen_seq(rng, svc):
     def snapshot():
         by_addr = {}
         for a in addrs:
-            key = (a, tuple((u['txid'], u['index']) for u in state[a]))
+            key = (a, tuple((u['txid'], u['index'], u['datum'][2] if u['datum'][0] == 'hash' else None) for u in state[a]))
             if key not in index:
                 index[key] = len(responses)
                 responses.append(dict(svc=svc, addr=a, utxos=list(state[a])))
@@ -393,6 +424,9 @@ def gen_seq(rng, svc):
                 if a == must_change and len(keep) == len(state[a]) and not new:
                     new = [fresh()]
                 state[a] = (keep + new)[-4:]
+        reveal()
+        for a in addrs:
+            state[a] = [known(u) for u in state[a]]
         return ['block', snapshot()]
 
     snapshot()
